@@ -37,6 +37,20 @@ CHECKS = {
                 "the real density with alpha != 1, and max|pi K - pi| <= 1e-10 is required with pi = exp(log_p_one) from the code.",
         "note": "Trusted: TLC, EnumRNG fidelity, projection. End-to-end enumeration bounded to n<=3 data points, NP<=3; n-dependent ingredients covered by C08/C09.",
     },
+    "C02": {
+        "engine": "GridRec.tla",
+        "category": "model_checking",
+        "technique": "TLC proves recursion = definitional sum on every forest and emits exact integer / polynomial-ring oracles; real trees compared entry-wise",
+        "design_ref": "DESIGN.md 5 C02",
+        "text": "On every forest over <=4 (quick) / <=5 (thorough) data points TLC proves that the implemented R/S/D recursion equals the "
+                "brute-force sum over all feasible CCF-index assignments (per clone and for the virtual root) on integer likelihood tables, "
+                "and prints the exact vectors; the recursion is also evaluated over Z[B] (monomial weights) to obtain exact oracles with "
+                "10^-40..10^-320 dynamic range, and on grids of 999/1000/1001 points across the direct/FFT switch. Every instance is built as "
+                "a real Tree through three construction histories, with 1-3 samples (10 for the 101-point grid) and per-sample scale offsets, "
+                "and data_log_likelihood is compared entry-wise (1e-9 above the floor zone, not-below-exact and finite in it, the property's "
+                "1e-6-of-peak rule on the FFT path).",
+        "note": "Trusted: TLC integer arithmetic (loud overflow), big-integer evaluation of TLC's polynomials at B=10^-m, the tree builder. Arbitrary real-valued rows beyond these families are not covered.",
+    },
     "C04": {
         "engine": "Moves.tla",
         "category": "model_checking",
